@@ -143,7 +143,7 @@ cfg["C17"] = {
 }
 cfg["C20"] = {
     "title": "Cluster operations take locks in one global order", "design_ref": "DESIGN.md §4 C20",
-    "runs": [{"dir": CAL, "quick": P("VerifNodeLocks", "n=3,pods=2,inc=2,op=0", "n=3,pods=2,op=1") + P("VerifWorkloadLocks", "ids=3") + P("VerifReallocOp", "fault=0"),
+    "runs": [{"dir": CAL, "quick": P("VerifNodeLocks", "n=3,pods=2,inc=3,op=0", "n=3,pods=2,op=1") + P("VerifWorkloadLocks", "ids=3") + P("VerifReallocOp", "fault=0"),
               "thorough": P("VerifNodeLocks", "n=3,pods=2,inc=2,op=0", "n=3,pods=2,op=1", "n=3,pods=3,inc=3,op=0", "n=4,pods=2,inc=3,op=0", "n=3,pods=2,inc=0,op=0") + P("VerifWorkloadLocks", "ids=3", "ids=4") + P("VerifReallocOp", "fault=0"), "samples": 3}],
     "bounds": "node universe of 3-4 nodes over 2-3 pods (symbolic pod assignment), include lists of length <= 3 in any order with repeats, or pod-based selection; workload id lists of length <= 4 over 3 ids in any order with repeats; the sequential operation ReallocResource end to end (pod lock, then workload lock)",
     "outside": "operations whose locking happens inside pool goroutines (create, remove, dissociate, replace, control, send): their lock sequences are schedule-dependent; lock implementations themselves (C18/C19)",
@@ -157,6 +157,27 @@ cfg["C21"] = {
     "assumptions": [cal_stubs],
 }
 
+ops_q = P("VerifReallocOp", "fault=8") + P("VerifRemoveOp", "fault=14") + P("VerifDissociateOp", "fault=12")
+ledger_assume = [cal_stubs,
+    "abstract ledger world: store = set of workload records with one symbolic scalar resource amount each; resource manager = per-node usage with delta/incr semantics (the real plugin arithmetic is verified in C04/C08 and composed by argument only); engine = set of containers with the amount applied",
+    "exactly one fallible model call fails, at a symbolic position among all store/plugin/engine calls the operation makes; every call after the injected fault succeeds (compensating steps succeed)",
+    "goroutines and ants pool tasks run to completion at their spawn point and channels are unbounded FIFO queues: one sequential schedule per operation, no interleavings; the fire-and-forget remap (RemapResourceAndLog) is skipped",
+    "pre-state satisfies usage(node) = sum of recorded workloads (the invariant itself), amounts in [0,2^30]"]
+cfg["C10"] = {
+    "title": "Node usage always equals the sum of the workloads recorded on the node", "design_ref": "DESIGN.md §4 C10",
+    "runs": [{"dir": CAL, "inline_go": True, "quick": ops_q, "thorough": ops_q, "samples": 4}],
+    "bounds": "one inductive step per operation (ReallocResource, RemoveWorkload, DissociateWorkload through the exported API) from an arbitrary ledger state with 2 workloads on one node satisfying the invariant, with no fault or one fault at any of the <=14 call positions",
+    "outside": "whole-API histories, interleavings of concurrent operations, create/replace pipelines (goroutine fan-out over several nodes), the real plugin arithmetic (C04/C08), capacity bounds",
+    "assumptions": ledger_assume,
+}
+cfg["C11"] = {
+    "title": "A failed cluster operation leaves no lasting effect", "design_ref": "DESIGN.md §4 C11",
+    "runs": [{"dir": CAL, "inline_go": True, "quick": ops_q, "thorough": ops_q, "samples": 4}],
+    "bounds": "ReallocResource, RemoveWorkload, DissociateWorkload through the exported API on a ledger of 2 workloads; every position of the single failing step (<=14 positions)",
+    "outside": "create, replace, add-node, remove-node, set-node (not encoded yet); failures of compensating steps; concurrency",
+    "assumptions": ledger_assume,
+}
+
 meta = {
     "C01": "Every feasible path of strategy.Deploy and the five real strategy functions (real container/heap and sort SSA) is executed with capacities, counts, need, limit, usage and rate symbolic; on each path z3 proves the plan assertions (only candidates, 0<=d<=capacity, exact totals, EACH/FILL selection sizes, AUTO node limit) for all values inside the bounds, or returns a model that is replayed natively. Bounded by node count and, for AUTO/GLOBAL, by need.",
     "C02": "Same exploration; on every path z3 proves err==nil <=> a harness-side reference feasibility predicate (saturating sums, no wrap) and that a refusal returns no plan.",
@@ -168,6 +189,8 @@ meta = {
     "C08": "One inductive step per operation from an arbitrary pre-state satisfying usage = R + w: after alloc/realloc every component equals the sum over live workloads, and operation+rollback restores the pre-state exactly. Covers histories of any length if the invariant is right.",
     "C15": "FixNodeResource and GetNodeResourceInfo are executed on a node whose recorded usage is arbitrary in every component; z3 proves per path that the stored usage afterwards equals the component-wise sum of the workloads and that a second check reports no differences.",
     "C32": "CalculateRemap is executed on arbitrary node states with every bound/unbound mix; z3 proves the answer covers exactly the unbound workloads with exactly the cores having >= one share base free (all cores if none).",
+    "C10": "The real ReallocResource / RemoveWorkload / DissociateWorkload (with the real utils.Txn, lock wrappers and node selection) are executed against an abstract ledger world with a symbolic single fault; z3 proves usage = sum of recorded workloads after every outcome, for all symbolic amounts.",
+    "C11": "Same executions; when (a part of) the operation reports failure, z3 proves that records, amounts, containers and usage equal the pre-state for every fault position.",
     "C17": "utils.Txn and utils.PCR are executed for every outcome vector and caller-cancellation point (symbolic Booleans / choices, complete finite space); z3 decides each branch; assertions: then iff cond ok, rollback exactly once iff a step failed with the right flag, first failure returned, rollback context not cancelled by the caller.",
     "C20": "The lock wrappers (withNodesPodLocked, withNodeOperationLocked, withWorkloadsLocked) and the sequential ReallocResource are executed over symbolic include/id lists and pod assignments with recording locks; the acquisition trace must be strictly ascending within pod locks and within workload locks, pod before workload, and everything released.",
     "C21": "Calcium.filterNodes (with the real utils.Map/sort code) is executed over symbolic include/exclude lists and store orders; the result must contain exactly the wanted distinct nodes, each once.",
